@@ -3,6 +3,6 @@
 # ELFIO_VERIF is never defined by the repository's own build).
 set -e
 REPO=${ELFIO_REPO:-/repo}
-[ -d "$REPO/_build" ] || cmake -G Ninja -B "$REPO/_build" -S "$REPO" -DELFIO_BUILD_TESTS=ON >/dev/null
+[ -d "$REPO/_build" ] || cmake -G Ninja -B "$REPO/_build" -S "$REPO" -DELFIO_BUILD_TESTS=ON -DFETCHCONTENT_SOURCE_DIR_GOOGLETEST=/usr/src/googletest -DFETCHCONTENT_FULLY_DISCONNECTED=ON -DCMAKE_BUILD_TYPE=RelWithDebInfo >/dev/null
 cmake --build "$REPO/_build" >/dev/null
 ctest --test-dir "$REPO/_build" --timeout 900
